@@ -1,5 +1,7 @@
 """Regenerate lean/BezierVerif/Gen/*.lean from /repo's current source (translator driver)."""
 import os
+import io
+import contextlib
 import sys
 import json
 import time
@@ -24,7 +26,8 @@ def regenerate(topics=None, verbose=False):
         info = {"defs": {}, "errors": {}}
         for name, params, f, outnames, doc in lst:
             try:
-                paths = explore(f)
+                with contextlib.redirect_stdout(io.StringIO()):      # the traced code prints diagnostics on degenerate paths
+                    paths = explore(f)
                 d = GenDef(name, params, paths, outnames, doc, collapse=name in specs.COLLAPSE)
                 defs.append(d)
                 from . import emit as _emit
